@@ -193,3 +193,18 @@ EXTENSIONS = {
 }
 for _pid, _extra in EXTENSIONS.items():
     CHECKS[_pid]["text"] += " " + _extra
+
+# environment-model extensions of wave f
+for _pid, _extra in {
+    "C03": "Also on a non-blocking connection (settimeout(0)) where the transport answers EAGAIN / SSLWantReadError wherever a blocking one would have timed out.",
+    "C09": "Recipes and faults also on an object whose earlier connection died with ECONNRESET (still flagged connected).",
+    "C12": "Would-block answers (EAGAIN / SSLWantWriteError) between short writes, served through a selector seam; the sender+receiver schedules also check that the receiving thread does not read on before its pong is complete on the wire.",
+    "C13": "Sends from on_message that fail with EPIPE / ECONNRESET while further frames are queued.",
+    "C15": "The simulated kernel answers shutdown() with ENOTCONN after a peer reset, as Linux does.",
+    "C16": "A ping's write failing once with ENOBUFS (no ping timeout).",
+    "C17": "Streams may also end in TLS-layer / kernel errors with (errno, text) arguments (SSLEOFError, SSLError, SSLZeroReturnError, ETIMEDOUT, EHOSTUNREACH).",
+    "C18": "Link-local IPv6 entries that differ only in the scope id.",
+    "C19": "A resolver that fails 1 / 2 / 5 times with EAI_AGAIN / EAI_NONAME: every lookup and connection still follows the proxy rule.",
+    "C20": "Cookies set by redirect responses (301-308), probed on the next hop and on a later connection.",
+}.items():
+    CHECKS[_pid]["text"] += " " + _extra
